@@ -41,14 +41,21 @@ pub fn status_s(s: Status) -> &'static str {
     }
 }
 
+/// A volume reported by the real book in the specification's units (large-volume regime: divided by the scale; a volume
+/// that is not a whole number of units is reported as it is, which no specification value equals)
+pub fn vol_s(v: u32) -> Value {
+    let k = crate::vol_scale();
+    if k == 1 { json!(v) } else if v % k == 0 { json!(v / k) } else { json!(format!("{} (not a multiple of the volume unit {})", v, k)) }
+}
+
 pub fn order_tuple(o: &Order) -> Value {
     json!([
         side_s(o.side),
         status_s(o.status),
         o.arr_time,
         end_s(o.end_time),
-        o.vol,
-        o.start_vol,
+        vol_s(o.vol),
+        vol_s(o.start_vol),
         price_s(o.price),
         o.trader_id
     ])
@@ -59,14 +66,14 @@ pub fn trade_tuple(t: &Trade) -> Value {
         t.t,
         side_s(t.side),
         price_s(t.price),
-        t.vol,
+        vol_s(t.vol),
         t.active_order_id,
         t.passive_order_id
     ])
 }
 
 fn pairs(a: &[(u32, u32)]) -> Value {
-    Value::Array(a.iter().map(|(v, n)| json!([v, n])).collect())
+    Value::Array(a.iter().map(|(v, n)| json!([vol_s(*v), n])).collect())
 }
 
 /// One getter, with a panic of the code under test reported as the value.
@@ -100,8 +107,8 @@ pub fn l2_value<const L: usize>(d: &Level2Data<L>) -> Value {
     json!([
         price_s(d.bid_price),
         price_s(d.ask_price),
-        d.bid_vol,
-        d.ask_vol,
+        vol_s(d.bid_vol),
+        vol_s(d.ask_vol),
         pairs(&d.bid_price_levels),
         pairs(&d.ask_price_levels)
     ])
@@ -116,18 +123,18 @@ pub fn views<const L: usize>(b: &OrderBook<L>) -> Value {
     json!({
         "bid": price_s(bid),
         "ask": price_s(ask),
-        "bvol": g(|| json!(b.bid_vol())),
-        "avol": g(|| json!(b.ask_vol())),
-        "bbest": g(|| { let (v, n) = b.bid_best_vol_and_orders(); json!([v, n]) }),
-        "abest": g(|| { let (v, n) = b.ask_best_vol_and_orders(); json!([v, n]) }),
+        "bvol": g(|| vol_s(b.bid_vol())),
+        "avol": g(|| vol_s(b.ask_vol())),
+        "bbest": g(|| { let (v, n) = b.bid_best_vol_and_orders(); json!([vol_s(v), n]) }),
+        "abest": g(|| { let (v, n) = b.ask_best_vol_and_orders(); json!([vol_s(v), n]) }),
         "blev": g(|| pairs(&b.bid_levels())),
         "alev": g(|| pairs(&b.ask_levels())),
         "mid2": g(|| mid2_s(b.mid_price(), bid, ask)),
-        "bv": g(|| json!([b.bid_best_vol(), b.ask_best_vol()])),
+        "bv": g(|| json!([vol_s(b.bid_best_vol()), vol_s(b.ask_best_vol())])),
         "l1": g(|| {
             let d = b.level_1_data();
-            json!([price_s(d.bid_price), price_s(d.ask_price), d.bid_vol, d.ask_vol,
-                   d.bid_touch_vol, d.ask_touch_vol, d.bid_touch_orders, d.ask_touch_orders])
+            json!([price_s(d.bid_price), price_s(d.ask_price), vol_s(d.bid_vol), vol_s(d.ask_vol),
+                   vol_s(d.bid_touch_vol), vol_s(d.ask_touch_vol), d.bid_touch_orders, d.ask_touch_orders])
         }),
         "l2": g(|| l2_value(&b.level_2_data())),
     })
@@ -184,7 +191,7 @@ pub fn book_proj<const L: usize>(b: &OrderBook<L>) -> Value {
     json!({
         "now": b.get_time(),
         "trading": trading_flag(b),
-        "tvol": b.get_trade_vol(),
+        "tvol": vol_s(b.get_trade_vol()),
         "orders": orders_value(&b.get_orders()),
         "trades": trades_value(b.get_trades()),
         "views": views(b),
